@@ -323,3 +323,166 @@ def reconstruct_via_attributes(p, loss_type, batch_size):
         del p.error_estimate
         del p.step_optimizers
     return rec
+
+
+# ----------------------------------------------------------------------------- rejected calls (exception safety)
+def rejected_menu(cfg, rng):
+    """public calls with an INVALID argument that the library rejects (raises) — a rejected call must leave the object as it
+    was.  Every item is a small JSON dict {"name", "on", ...}; `apply_call` performs it.  The refused values are 'tempting':
+    had they been stored they would change the forward model (other thicknesses, other positions, ...)."""
+    S, K = cfg["slices"], cfg["modes"]
+    r0, r1 = cfg["roi"]
+    n = cfg["scan"][0] * cfg["scan"][1]
+    bad = lambda: rng.choice([-13.0, 0.0, -0.0, -0.5, 0, -2])
+    items = []
+    on = lambda: rng.choice(["ptycho", "obj_model"])
+    if S >= 3:
+        # per-slice sequence of the CORRECT length with a non-positive entry (the other entries differ from the ones in use)
+        for _ in range(3):
+            v = [float(d) + rng.randint(1, 9) for d in cfg["dz"]]
+            v[rng.below(S - 1)] = bad()
+            items.append({"name": "dz:per-slice-nonpositive", "on": on(), "value": v, "form": rng.choice(["list", "tuple", "ndarray", "tensor"])})
+        items.append({"name": "dz:wrong-length", "on": on(), "value": [float(d) + 2 for d in cfg["dz"]] + [4.0], "form": "list"})
+        items.append({"name": "dz:wrong-length", "on": on(), "value": [float(d) + 2 for d in cfg["dz"]][:-1] + [3.0, 4.0, 5.0], "form": "list"})
+    if S >= 2:
+        items.append({"name": "dz:scalar-nonpositive", "on": on(), "value": bad(), "form": "scalar"})
+        items.append({"name": "dz:scalar-nonpositive", "on": on(), "value": [bad()], "form": "list"})
+        items.append({"name": "dz:none", "on": on(), "value": None, "form": "scalar"})
+        items.append({"name": "dz:empty", "on": on(), "value": [], "form": rng.choice(["list", "tuple"])})
+    else:
+        items.append({"name": "dz:sequence-on-single-slice", "on": on(), "value": [3.0, 4.0], "form": "list"})
+    items += [
+        {"name": "probe:wrong-mode-count", "on": "probe_model", "shape": [K + 1, r0, r1]},
+        {"name": "probe:wrong-roi", "on": "probe_model", "shape": [K, r0 + 1, r1]},
+        {"name": "scan_positions:wrong-shape", "on": "dset", "shape": [n + 1, 2]},
+        {"name": "scan_positions:wrong-shape", "on": "dset", "shape": [n, 3]},
+        {"name": "detector_mask:wrong-shape", "on": "dset", "shape": [r0 + 1, r1]},
+        {"name": "descan_shifts:wrong-shape", "on": "dset", "shape": [n + 1, 2]},
+        {"name": "centered_amplitudes:wrong-shape", "on": "dset", "shape": [n, r0, r1 + 1]},
+        {"name": "centered_intensities:wrong-shape", "on": "dset", "shape": [n + 1, r0, r1]},
+        {"name": "mean_diffraction_intensity:nonpositive", "on": "dset", "value": rng.choice([0, -1.0, -0.0])},
+        {"name": "dset.preprocess:unknown-fit", "on": "dset", "value": rng.choice(["bogus", "Plane", ""])},
+        {"name": "obj_padding_px:bad-length", "on": "ptycho", "value": [1, 2, 3]},
+        {"name": "obj_padding_px:bad-type", "on": "ptycho", "value": "ab"},
+        {"name": "preprocess:bad-padding", "on": "ptycho", "value": [5, 6, 7]},
+        {"name": "batch_size:nonpositive", "on": "ptycho", "value": rng.choice([0, -1])},
+        {"name": "val_ratio:out-of-range", "on": "ptycho", "value": rng.choice([2.0, -0.5])},
+        {"name": "constraints:unknown", "on": "ptycho", "value": rng.choice([{"bogus": {"x": 1}}, {"object": {"bogus": 1}}, {"dataset": {"clip": False}}])},
+        {"name": "set_obj_type:unknown", "on": "ptycho", "value": "bogus"},
+        {"name": "reconstruct:unknown-loss", "on": "ptycho", "value": rng.choice(["l2_bogus", "l3_amplitude", "amplitude", ""])},
+        {"name": "reconstruct:bad-batch-size", "on": "ptycho", "value": 0},
+        {"name": "reconstruct:unknown-device", "on": "ptycho", "value": "tpu"},
+    ]
+    return items
+
+
+def _as_form(value, form):
+    torch = _q().torch
+    if form == "tuple":
+        return tuple(value)
+    if form == "ndarray":
+        return np.asarray(value, dtype=np.float64)
+    if form == "tensor":
+        return torch.tensor(value, dtype=torch.float32)
+    return value
+
+
+def apply_call(q, cfg, item):
+    """perform one (expected to be rejected) public call; returns the exception class name or None when it was accepted"""
+    torch = _q().torch
+    name, on = item["name"], item["on"]
+    fill = lambda shape, dt: (np.arange(int(np.prod(shape))).reshape(shape) % 7 + 1).astype(dt)
+    try:
+        with warnings.catch_warnings(), torch.enable_grad(), pt.no_gc():
+            warnings.simplefilter("ignore")
+            if name.startswith("dz:"):
+                tgt = q if on == "ptycho" else q.obj_model
+                tgt.slice_thicknesses = _as_form(item["value"], item["form"]) if isinstance(item["value"], list) else item["value"]
+            elif name.startswith("probe:"):
+                q.probe_model.probe = fill(item["shape"], np.complex64)
+            elif name.startswith("scan_positions:"):
+                q.dset.scan_positions_px = fill(item["shape"], np.float32)
+            elif name.startswith("detector_mask:"):
+                q.dset.detector_mask = np.zeros(item["shape"], np.float32)
+            elif name.startswith("descan_shifts:"):
+                q.dset.descan_shifts = fill(item["shape"], np.float32)
+            elif name.startswith("centered_amplitudes:"):
+                q.dset.centered_amplitudes = fill(item["shape"], np.float32)
+            elif name.startswith("centered_intensities:"):
+                q.dset.centered_intensities = fill(item["shape"], np.float32)
+            elif name.startswith("mean_diffraction_intensity:"):
+                q.dset.mean_diffraction_intensity = item["value"]
+            elif name.startswith("dset.preprocess:"):
+                q.dset.preprocess(com_fit_function=item["value"], plot_rotation=False, plot_com=False, probe_energy=cfg["energy"],
+                                  force_com_rotation=cfg.get("rotation_deg", 0), force_com_transpose=bool(cfg.get("transpose", False)))
+            elif name.startswith("obj_padding_px:"):
+                q.obj_padding_px = item["value"] if isinstance(item["value"], str) else tuple(item["value"])
+            elif name.startswith("preprocess:"):
+                q.preprocess(obj_padding_px=tuple(item["value"]), plot_rotation=False, plot_com=False)
+            elif name.startswith("batch_size:"):
+                q.batch_size = item["value"]
+            elif name.startswith("val_ratio:"):
+                q.val_ratio = item["value"]
+            elif name.startswith("constraints:"):
+                q.constraints = item["value"]
+            elif name.startswith("set_obj_type:"):
+                q.set_obj_type(item["value"])
+            elif name == "reconstruct:unknown-loss":
+                q.reconstruct(num_iters=1, loss_type=item["value"], constraints={})
+            elif name == "reconstruct:bad-batch-size":
+                q.reconstruct(num_iters=1, batch_size=item["value"], constraints={})
+            elif name == "reconstruct:unknown-device":
+                q.reconstruct(num_iters=1, device=item["value"], constraints={})
+            else:
+                raise RuntimeError(f"harness: unknown rejected-call item {name}")
+    except RuntimeError as e:
+        if str(e).startswith("harness:"):
+            raise
+        return type(e).__name__
+    except Exception as e:   # noqa: BLE001
+        return type(e).__name__
+    return None
+
+
+def valid_rebuild(q, cfg, truth, what):
+    """a VALID public call that rebuilds derived state (propagators, positions, indices, object), followed by re-installing
+    the ground truth where the call re-initialises object / probe"""
+    with warnings.catch_warnings():
+        warnings.simplefilter("ignore")
+        if what == "reset_recon":
+            q.reset_recon()
+            install_truth(q, cfg, *truth)
+        elif what == "preprocess":
+            q.preprocess(obj_padding_px=tuple(cfg["pad"]), plot_rotation=False, plot_com=False)
+            install_truth(q, cfg, *truth)
+        elif what == "to_cpu":
+            q.to("cpu")
+        elif what == "compute_propagator_arrays":
+            q.compute_propagator_arrays()
+        elif what == "none":
+            pass
+        else:
+            raise RuntimeError(f"harness: unknown rebuild {what}")
+
+
+# ----------------------------------------------------------------------------- re-preprocessing histories
+def make_raw_dataset(cfg, intensities4d):
+    """the un-preprocessed dataset model"""
+    Q = _q()
+    r0, r1 = cfg["roi"]
+    sr, sc = cfg["samp"]
+    st_r, st_c = cfg["step"]
+    ds = Q.Dataset4dstem.from_array(array=np.asarray(intensities4d, dtype=np.float32),
+                                    sampling=(st_r, st_c, 1.0 / (r0 * sr), 1.0 / (r1 * sc)), units=("A", "A", "A^-1", "A^-1"))
+    return Q.Raster.from_dataset4dstem(ds, verbose=0, learn_descan=False, learn_scan_positions=False)
+
+
+def dataset_preprocess(pd, cfg, **override):
+    """PtychographyDatasetRaster.preprocess with the configuration's settings, `override` replacing some of them"""
+    kw = dict(com_fit_function=cfg["com"], plot_rotation=False, plot_com=False, probe_energy=cfg["energy"],
+              force_com_rotation=cfg.get("rotation_deg", 0), force_com_transpose=bool(cfg.get("transpose", False)), vectorized=True)
+    kw.update(override)
+    with warnings.catch_warnings(), np.errstate(all="ignore"):
+        warnings.simplefilter("ignore")
+        pd.preprocess(**kw)
+    return pd
